@@ -5,6 +5,10 @@
 //   mesh <density> <inertia> sx sy sz  rx ry rz  qw qx qy qz  user <nv> <nf> v(3nv floats, decimal) f(3nf ints)
 //        one non-colliding mesh geom (contype = conaffinity = 0: no convex hull needed) on a static body;
 //        output: mass ipos[3] iquat[4] inertia[3] as IEEE bits, or `error <msg>`
+//   ibody bm bi <balance> <fromgeom 0|1|2> <glo> <ghi> stm <explicit> mass <hasipos> ipos[3] iquat[4] diag[3] <hasfull> full[6]
+//         <n> { <group> + 14 geom tokens }*n     (model counterpart: bodyCompile / applyTotalmass)
+//        one static body with default frame, an (optionally explicit) inertial clause and n geoms, compiled with
+//        compiler.boundmass / boundinertia / balanceinertia / inertiafromgeom / inertiagrouprange / settotalmass
 // Doubles are the 16 hex digits of their IEEE bits (`nan` for NaN) unless stated otherwise.
 #include <math.h>
 #include <stdint.h>
@@ -116,6 +120,55 @@ static void op_body(char** tok, int n) {
   mj_deleteSpec(sp);
 }
 
+static void op_ibody(char** tok, int n) {
+  if (n < 28) { printf("bad-op\n"); return; }
+  double bm, bi, stm, mass, ipos[3], iquat[4], diag[3], full[6];
+  int bal, ifg, glo, ghi, expl, hasipos, hasfull, ng;
+  int ok = getf(tok[0], &bm) && getf(tok[1], &bi) && b01(tok[2], &bal) && geti(tok[3], &ifg) && ifg >= 0 && ifg <= 2 &&
+           strlen(tok[3]) == 1 && geti(tok[4], &glo) && geti(tok[5], &ghi) && getf(tok[6], &stm) && b01(tok[7], &expl) &&
+           getf(tok[8], &mass) && b01(tok[9], &hasipos) && b01(tok[20], &hasfull) && geti(tok[27], &ng) && tok[27][0] != '-';
+  for (int i = 0; ok && i < 3; i++) ok = getf(tok[10 + i], ipos + i) && getf(tok[17 + i], diag + i);
+  for (int i = 0; ok && i < 4; i++) ok = getf(tok[13 + i], iquat + i);
+  for (int i = 0; ok && i < 6; i++) ok = getf(tok[21 + i], full + i);
+  if (!ok || ng < 0 || ng > 64 || n != 28 + 15 * ng) { printf("bad-op\n"); return; }
+  int unsupported = 0;
+  for (int k = 0; k < ng; k++) {
+    char** t = tok + 28 + 15 * k; int grp, ty, sh, um; double x;
+    if (!geti(t[0], &grp) || !gtype(t[1], &ty) || !b01(t[2], &sh) || !b01(t[3], &um)) { printf("bad-op\n"); return; }
+    for (int j = 4; j < 15; j++) if (!getf(t[j], &x)) { printf("bad-op\n"); return; }
+    if (ty == mjGEOM_ELLIPSOID && sh) unsupported = 1;
+  }
+  if (unsupported) { printf("unsupported\n"); return; }
+  mjSpec* sp = mj_makeSpec();
+  sp->compiler.boundmass = bm;
+  sp->compiler.boundinertia = bi;
+  sp->compiler.balanceinertia = bal;
+  sp->compiler.inertiafromgeom = ifg == 0 ? mjINERTIAFROMGEOM_FALSE : ifg == 1 ? mjINERTIAFROMGEOM_TRUE : mjINERTIAFROMGEOM_AUTO;
+  sp->compiler.inertiagrouprange[0] = glo;
+  sp->compiler.inertiagrouprange[1] = ghi;
+  sp->compiler.settotalmass = stm;
+  mjsBody* b = newbody(sp);
+  b->explicitinertial = expl;
+  b->mass = mass;
+  if (hasipos) { b->ipos[0] = ipos[0]; b->ipos[1] = ipos[1]; b->ipos[2] = ipos[2]; }
+  for (int i = 0; i < 4; i++) b->iquat[i] = iquat[i];
+  for (int i = 0; i < 3; i++) b->inertia[i] = diag[i];
+  if (hasfull) for (int i = 0; i < 6; i++) b->fullinertia[i] = full[i];
+  for (int k = 0; k < ng; k++) {
+    char** t = tok + 28 + 15 * k; int grp, ty, sh, um; double v[11];
+    geti(t[0], &grp); gtype(t[1], &ty); b01(t[2], &sh); b01(t[3], &um);
+    for (int j = 0; j < 11; j++) getf(t[4 + j], v + j);
+    mjsGeom* g = addgeom(b, ty, sh, v + 1);
+    g->group = grp;
+    if (um) g->mass = v[0]; else g->density = v[0];
+    g->pos[0] = v[4]; g->pos[1] = v[5]; g->pos[2] = v[6];
+    g->quat[0] = v[7]; g->quat[1] = v[8]; g->quat[2] = v[9]; g->quat[3] = v[10];
+  }
+  mjModel* m = mj_compile(sp, NULL);
+  if (!m) printf("error\n"); else { print_body(m); mj_deleteModel(m); }
+  mj_deleteSpec(sp);
+}
+
 static void op_mesh(char** tok, int n) {
   if (n < 13) { printf("bad-op\n"); return; }
   double density = strtod(tok[0], NULL);
@@ -169,6 +222,7 @@ int main(void) {
     if (!strcmp(tok[0], "vol")) op_vol(tok + 1, n - 1);
     else if (!strcmp(tok[0], "inert")) op_inert(tok + 1, n - 1);
     else if (!strcmp(tok[0], "body")) op_body(tok + 1, n - 1);
+    else if (!strcmp(tok[0], "ibody")) op_ibody(tok + 1, n - 1);
     else if (!strcmp(tok[0], "mesh")) op_mesh(tok + 1, n - 1);
     else printf("bad-op\n");
     fflush(stdout);
